@@ -42,7 +42,7 @@ MenuPlain == {NoScript}
 Sc(o, i, j) == [op |-> o, x |-> i, y |-> j]
 MenuC16 == {NoScript} \cup {Sc(o, i, 0) : o \in {"CloneStored", "DropStored"}, i \in Obj}
 MenuC05 == {NoScript} \cup {Sc(o, i, 0) : o \in {"UpgradeWeak", "UpgradeStored"}, i \in Obj}
-MenuC10 == {NoScript} \cup {Sc(o, i, 0) : o \in {"CloneRoot", "DropRoot", "Downgrade", "WeakDrop", "UpgradeWeak", "UpgradeStored"}, i \in Obj}
+MenuC10 == {NoScript} \cup {Sc(o, i, 0) : o \in {"CloneRoot", "DropRoot", "Downgrade", "WeakDrop", "UpgradeWeak", "UpgradeStored", "Take"}, i \in Obj}
                       \cup {Sc(o, i, j) : o \in {"Adopt", "Unadopt"}, i \in Obj, j \in Obj}
 MenuC10Q == {NoScript} \cup {Sc(o, i, 0) : o \in {"CloneRoot", "DropRoot", "UpgradeWeak"}, i \in Obj}
                        \cup {Sc("Adopt", i, j) : i \in Obj, j \in Obj}
